@@ -154,11 +154,23 @@ Work makeWork(vh::Rng& r, int big) {
   switch (kind) {
     case 0: case 1: {  // deferred tree with a shared sub-expression
       ops(4);
-      int shape = (int)r.below(4);
+      int shape = (int)r.below(8);
       w.entry = "Status(tree)";
       w.desc = "tree shape " + std::to_string(shape);
       w.hasSibling = true;
       w.run = [shape](ExecutionContext& ctx, const std::vector<Manifold>& o) {
+        if (shape >= 4) {
+          // an (already evaluated, possibly aliased op-node) operand on the LEFT
+          // of a still lazy sub-expression whose handle is kept alive, so the
+          // evaluator cannot collapse it and the finished left node waits on
+          // the stack while the right one is being evaluated
+          Manifold t = shape % 2 ? o[2] + o[3] : o[2] - o[3].Translate({0.05, 0, 0});
+          Manifold root = shape < 6 ? o[0] - t : Manifold::BatchBoolean({o[0], t, o[1]}, shape == 6 ? OpType::Add : OpType::Subtract);
+          gSibling = t ^ o[1];
+          Manifold obs = root.WithContext(ctx);
+          obs.Status();
+          return obs;
+        }
         Manifold s = shape % 2 ? o[0] + o[1] : o[0] - o[1];  // shared, lazy
         Manifold root = shape < 2 ? (s - o[2]) + o[3].Translate({0.1, 0, 0}) : (s ^ o[2]) - o[3];
         gSibling = shape < 2 ? s ^ o[3] : s + o[3].Translate({0, 0.1, 0});
